@@ -9,7 +9,7 @@
 //!   sim shuttle-replay --schedule-file F                          -> exit 1 if the violation reproduces
 
 use crate::prng::{Fnv, Rng};
-use crate::workload::{draw_op, exec_op, op_json, WOp};
+use crate::workload::{draw_op, exec_op, op_json, Shared, WOp};
 use serde_json::{json, Value};
 use shuttle::rand::RngCore;
 use std::sync::atomic::{AtomicU64, Ordering};
@@ -55,8 +55,11 @@ fn scenario() {
     verif::set_sim_point(Some(point));
     let ntasks = r.range(2, 4) as usize;
     // the calls that hit the five cells: finalize on Short/Normal/Long, compare on Normal/Long; plus noise
+    let shared = std::sync::Arc::new(Shared::new(r.next_u64()));
+    let mut per_task_shared: Vec<Vec<(u8, u8)>> = Vec::new();
     let mut per_task: Vec<Vec<WOp>> = Vec::new();
     for _ in 0..ntasks {
+        per_task_shared.push((0..r.range(0, 3)).map(|_| (r.below(3) as u8, if r.chance(1, 2) { 30 } else { r.below(32) as u8 })).collect());
         let n = r.range(1, 5);
         let mut ops = Vec::new();
         for _ in 0..n {
@@ -72,18 +75,33 @@ fn scenario() {
     *LAST.lock().unwrap() = Some(json!({"workload_seed": wseed.to_string(), "cpu_mask": mask, "tasks": per_task.iter().map(|t| t.iter().map(op_json).collect::<Vec<_>>()).collect::<Vec<_>>()}));
     let mut handles = Vec::new();
     for (i, ops) in per_task.iter().cloned().enumerate() {
+        let sh = shared.clone();
+        let shops = per_task_shared[i].clone();
         handles.push(
             shuttle::thread::Builder::new()
                 .name(format!("t{i}"))
-                .spawn(move || ops.iter().map(exec_op).collect::<Vec<String>>())
+                .spawn(move || {
+                    // concurrent finalize calls on generators shared by all tasks, then the task's own ops
+                    let mut out: Vec<String> = shops.iter().map(|(w, o)| sh.finalize(*w, *o)).collect();
+                    out.extend(ops.iter().map(exec_op));
+                    out
+                })
                 .expect("spawn"),
         );
     }
     let got: Vec<Vec<String>> = handles.into_iter().map(|h| h.join().expect("task panicked")).collect();
     // sequential reference, computed inside the execution (the shim's primitives only work here)
     for (t, ops) in per_task.iter().enumerate() {
+        let ns = per_task_shared[t].len();
+        for (i, (w, o)) in per_task_shared[t].iter().enumerate() {
+            let want = shared.finalize(*w, *o);
+            if got[t][i] != want {
+                panic!("C07-VIOLATION first-caller-dependence: task {t} concurrent finalize #{i} of shared generator {w} with options {o} returned `{}` but the sequential result is `{}`", got[t][i], want);
+            }
+        }
         for (i, op) in ops.iter().enumerate() {
             let want = exec_op(op);
+            let i = i + ns;
             if got[t][i] != want {
                 panic!("C07-VIOLATION first-caller-dependence: task {t} op #{i} {} returned `{}` but the sequential result is `{}`", op_json(op), got[t][i], want);
             }
